@@ -2,6 +2,7 @@ import TracklibVerif.Lemmas.DTWTable
 /-! What `_fillAF_dtw` leaves on the returned track, row by row; a track1 that already carries the features of an
 earlier matching gives the same result as a track1 without them (`fillAFOn_eq_fillAF`, `dtwOn_eq_dtw`, `fdtwOn_of_fdtw`). -/
 set_option linter.unusedSimpArgs false
+set_option linter.unusedSectionVars false
 namespace TV.DTW
 
 section fill
@@ -15,7 +16,7 @@ def stepRow (dist : Pt α → Pt α → α) (t1 t2 : List (Pt α)) (j : Nat) (r 
       ey := some ((t1[s.2]?.getD ⟨0, 0, 0⟩).y - (t2[s.1]?.getD ⟨0, 0, 0⟩).y) }
   else r
 
-omit [Div α] [LE α] [DecidableLE α] in
+omit [Add α] [Mul α] [Div α] [LT α] [DecidableLT α] [LE α] [DecidableLE α] in
 /-- the loop of `_fillAF_dtw`, row by row: row `j` is the fold of `stepRow j` over the pairs visited -/
 theorem fill_foldl_rows (dist : Pt α → Pt α → α) (t1 t2 : List (Pt α)) :
     ∀ (L : List (Nat × Nat)) (rows : List (Row α)) (nb : Nat), rows.length = t1.length →
@@ -45,7 +46,7 @@ theorem fill_foldl_rows (dist : Pt α → Pt α → α) (t1 t2 : List (Pt α)) :
       · simp [List.getElem?_set_ne hj, stepRow, hj]
     · simp only [List.length_cons]; omega
 
-omit [Div α] [LE α] [DecidableLE α] in
+omit [Add α] [Mul α] [Div α] [LT α] [DecidableLT α] [LE α] [DecidableLE α] in
 /-- a row that is visited at least once does not depend on what it held before, apart from its link list -/
 theorem foldl_stepRow_congr (dist : Pt α → Pt α → α) (t1 t2 : List (Pt α)) (j : Nat) :
     ∀ (L : List (Nat × Nat)) (rA rB : Row α), (∃ s ∈ L, s.2 = j) → rA.pair = rB.pair →
@@ -90,7 +91,7 @@ theorem fillAFOn_eq_fillAF (dist : Pt α → Pt α → α) (t1 t2 : List (Pt α)
       exact foldl_stepRow_congr dist t1 t2 j _ _ _ ⟨(i, j), List.mem_reverse.mpr hi, rfl⟩ rfl
   rw [this]
 
-omit [Div α] [LE α] [DecidableLE α] in
+omit [Add α] [Mul α] [Div α] [LT α] [DecidableLT α] [LE α] [DecidableLE α] in
 theorem fillAFOn_fields (dist : Pt α → Pt α → α) (t1 t2 : List (Pt α)) (rows0 : List (Row α))
     (S : List (Nat × Nat)) (score : α) (o : Out α) (h : fillAFOn dist t1 t2 rows0 S score = some o) :
     o.S = S ∧ o.score = score := by
@@ -475,7 +476,7 @@ def rowFor (dist : Pt α → Pt α → α) (t1 t2 : List (Pt α)) (j i : Nat) (p
     ex := some ((t1[j]?.getD ⟨0, 0, 0⟩).x - (t2[i]?.getD ⟨0, 0, 0⟩).x),
     ey := some ((t1[j]?.getD ⟨0, 0, 0⟩).y - (t2[i]?.getD ⟨0, 0, 0⟩).y) }
 
-omit [Div α] [LE α] [DecidableLE α] in
+omit [Add α] [Mul α] [Div α] [LT α] [DecidableLT α] [LE α] [DecidableLE α] in
 /-- row `j` after the loop: untouched when no pair concerns it; otherwise `diff`, `ex`, `ey` are those of its **last**
 partner in visiting order and the link list has grown by all its partners, in order -/
 theorem foldl_stepRow_last (dist : Pt α → Pt α → α) (t1 t2 : List (Pt α)) (j : Nat) :
